@@ -19,11 +19,27 @@ Theorem C16_order : forall cf now initres evs inits gs st,
   inits = repIdxs cf /\
   numbered cf (nextNr (snd (start cf now initres))) gs /\
   (ph (snd (start cf now initres)) = PRunning ->
-   nextNr (snd (start cf now initres)) = findLastSegNr cf now + 1).
+   nextNr (snd (start cf now initres)) = firstNr cf now).
 Proof. exact session_order. Qed.
 Print Assumptions C16_order.
 
-(** The number that [C16_order] starts from is the live edge + 1: [n] is the newest segment of the
+(** [firstNr] in the pinned code and with the proposed repair (proposed_fixes/C16-first-number.diff;
+    the harness reads from the source which one the tree under test has). *)
+Theorem C16_first_number_pinned : forall cf now,
+  sc_first_fix cf = false -> firstNr cf now = findLastSegNr cf now + 1.
+Proof. exact firstNr_pinned. Qed.
+Theorem C16_first_number_repaired : forall cf now,
+  sc_first_fix cf = true -> firstNr cf now = Z.max (findLastSegNr cf now) (-1) + 1 + startNr (sc_cfg cf).
+Proof. exact firstNr_repaired. Qed.
+Theorem C16_first_number_repaired_example :
+  let c := {| startS := 0; startNr := 3; tsbdS := 60; ato := Some 0 |} in
+  let cf := mk_scfg_rcf RCeil true true [ {| ir_kind := RVideo; ir_tab := Some rep2s |} ] rep2s 8000 2000 c false true None false in
+  let cf0 := mk_scfg_rcf RCeil true true [ {| ir_kind := RVideo; ir_tab := Some rep2s |} ] rep2s 8000 2000 cfg0 false true None false in
+  (let '(_, gs, _) := session cf 10000 [] [trig] in map (map (fun m => (mp_nr m, mp_now m, mp_ok m))) gs = [[(8, 12000, true)]]) /\
+  (let '(_, gs, _) := session cf0 1000 [] [trig; trig] in map (map (fun m => (mp_nr m, mp_now m, mp_ok m))) gs = [[(0, 2000, true)]; [(1, 4000, true)]]).
+Proof. exact first_number_repaired_witness. Qed.
+
+(** [findLastSegNr] is the live edge: [n] is the newest segment of the
     reference representation that has ended at the start instant (E n <= now < E (n+1), in
     milliseconds x timescale), with the window theorems of C02 (WindowProofs.timeline_is_window). *)
 Theorem C16_first_number : forall cf now n,
@@ -66,7 +82,7 @@ Theorem C16_duration : forall cf now initres evs d inits gs st,
   sc_test cf = true -> sc_chunked cf = false -> tabs_ok cf -> avail_total cf ->
   forallb (fun i => nth i initres true) (seq 0 (length (sc_reps cf))) = true ->
   let k := d * 1000 / sc_segDurMS cf in
-  let first := findLastSegNr cf now + 1 in
+  let first := firstNr cf now in
   0 <= first ->
   Forall is_fire evs -> k < lenZ evs ->
   session cf now initres evs = (inits, gs, st) ->
@@ -84,7 +100,7 @@ Theorem C16_duration_realtime : forall cf now initres evs d inits gs st,
   sc_chunked cf = false -> tabs_ok cf -> avail_total cf ->
   forallb (fun i => nth i initres true) (seq 0 (length (sc_reps cf))) = true ->
   let k := d * 1000 / sc_segDurMS cf in
-  let first := findLastSegNr cf now + 1 in
+  let first := firstNr cf now in
   0 <= first ->
   Forall is_fire evs -> k < lenZ evs ->
   session cf now initres evs = (inits, gs, st) ->
@@ -146,11 +162,11 @@ Print Assumptions C16_complete_time_partial.
 
 (** The hypothesis [avail_on_time] holds for the exact ceiling of the availability instant
     (what math.Ceil computes when the float64 error does not reach the next integer). *)
-Theorem C16_exact_avail_on_time : forall reps r loopMS segDur c timeline test dur chunked cc atoMS,
+Theorem C16_exact_avail_on_time : forall reps r loopMS segDur c timeline test dur chunked cc ff atoMS,
   wf r loopMS -> startNr c = 0 -> ato c = Some atoMS -> 0 <= atoMS ->
   avail_on_time {| sc_reps := reps; sc_ref := r; sc_loopMS := loopMS; sc_segDurMS := segDur; sc_cfg := c;
                    sc_timeline := timeline; sc_test := test; sc_dur := dur; sc_chunked := chunked;
-                   sc_catchup_checks := cc; sc_avail := availMS_exact r loopMS c |}.
+                   sc_catchup_checks := cc; sc_first_fix := ff; sc_avail := availMS_exact r loopMS c |}.
 Proof. exact exact_on_time. Qed.
 Print Assumptions C16_exact_avail_on_time.
 
